@@ -53,11 +53,7 @@ class C12(Prop):
     lean_exe = "c12_driver"
     harness = "h_dsqdata.c"
     harness_includes_c = ["esl_dsqdata.c"]
-    # esl_dsqdata.c is compiled inside the harness. dsqdata_chunk_Create() places <psq> at smem + U - 4*maxpacket, which is not
-    # 4-byte aligned in general (odd for the default limits): every packet load is a misaligned uint32_t access - formally undefined,
-    # benign on the supported targets, not part of C12. Patch proposed (/var/tmp/fixes-proposed/C12-dsqdata-psq-align.patch: round U
-    # up to a multiple of 4); the check passes with and without this flag once that patch is in.
-    harness_flags = WRAP + ["-fno-sanitize=alignment"]
+    harness_flags = WRAP            # all ASan/UBSan checks active (the three UB findings in esl_dsqdata.c were repaired upstream: 09d0278, 0b6ecdd)
     theorems = ["EaselModel.Props.C12." + t for t in (
         "wq_conservation", "wq_exclusive", "wq_fifo", "wq_fifo_prefix", "wq_counters", "wq_no_lost_wakeup_worker",
         "wq_no_lost_wakeup_reader", "wq_wake_delivers", "wq_no_overflow", "wq_run_reachable",
@@ -75,8 +71,9 @@ class C12(Prop):
                   "no deadlock within a watchdog).")
     level_note = ("Trusted: Lean kernel + propext/Classical.choice/Quot.sound; fidelity of the hand models is checked by differential run / trace validation, not proved; "
                   "pthread semantics and data-race freedom are assumed (atomic step per critical section); caller contract of the queue stated as `Admissible`. "
-                  "Not yet theorems: loader nload maximality, dsqdata pipeline protocol (order / deadlock-freedom), esl_threads rendezvous - these are covered by "
-                  "differential runs and monitors only.")
+                  "Not theorems: no-lost-wake-up of the dsqdata pipeline (checked on every state of the observed traces only), the byte-level in-place "
+                  "packing/unpacking overlap (covered by ASan + tight-chunk content comparison), metadata parsing of unpack_chunk (differential only), esl_dsqdata_Open/Write file "
+                  "handling, the esl_workqueue_queuelock_* variants (unfinished code, not covered).")
     diverge_is_violation = True
     fault_is_output = True      # a sanitizer abort is an output line; it must coincide with the model's `fault`
     technique = ("Lean 4 proof (transition system of esl_workqueue with one atomic step per mutex-protected region, inductive invariant over "
@@ -90,8 +87,9 @@ class C12(Prop):
                    "under the mutex must equal the model state), not proved; data-race freedom / the pthread memory model is not a theorem",
                    "caller contract of the work queue (Admissible): Init hands in each block once and at most `size` blocks; Reset is not called while a worker "
                    "sleeps in WorkerUpdate (counter-example proved: wq_reset_while_pending_loses_wakeup); one reader thread",
-                   "UBSan's alignment check is disabled for the harness translation unit (misaligned <psq> inside <smem>, reported with a patch); all other "
-                   "ASan/UBSan checks are active",
+                   "covered C functions: esl_workqueue_{Create,Init,Remove,Reset,Complete,ReaderUpdate,WorkerUpdate}; esl_threads_{Create,AddThread,WaitForStart,Started,"
+                   "GetData,GetWorkerCount,Finished,WaitForFinish}; esl_dsqdata_{Open,Read,Recycle,Close,Write}, dsqdata_{loader_thread,unpacker_thread,unpack_chunk,unpack5,unpack2,"
+                   "pack5,pack2,chunk_Create}. Not covered: esl_workqueue_queuelock_*, esl_workqueue_Dump, esl_threads_CPUCount, error/exception paths of Open (bad files)",
                    "allocation never fails; file system behaves"]
     rule = ("cases = codec ops on boundary-rich digital sequences (valid and out-of-range codes, malformed packet streams), sequential queue op histories, "
             "threaded queue runs (1-6 workers, size 1-8, perturbed schedules) whose logged trace must be a path of the model, and write/read-back of "
@@ -266,6 +264,56 @@ class C12(Prop):
             out.append(self.dsq_case("dsqrt%d" % c, "amino" if amino else "dna", seqs, maxseq, maxpacket, rng.randrange(1, 5), rng.randrange(1, 5),
                                      rng.randrange(1, 1 << 30), rng.choice([0, 20, 50, 80]), rng, raw=raw))
             stats["dsqrt"] += 1; stats["dsqrt_seqs"] += nseq
+        # --- structured databases (every run, every seed): the shapes in which the loader's index carry-over matters
+        def mixed_dna(n, full=False):      # canonical runs broken by degenerate residues: 2-bit and 5-bit packets alternate
+            d = []                         # (gap / * / ~ codes only when the harness writes the database itself: FASTA input rejects them)
+            while len(d) < n:
+                d += [rng.randrange(4) for _ in range(rng.choice([3, 14, 15, 16, 29, 30, 31, 45]))] + [rng.choice([4, 5, 10, 15, 16, 17] if full else [5, 8, 10, 15])] * rng.choice([0, 1, 1, 2])
+            return d[:n]
+        k = 0
+        for rep in range(2 if quick else 20):
+            for shape in ("tail-carry", "tail-carry-long", "count-0", "count-1", "count-eq", "count-eq+1", "count-2eq", "count-2eq-1", "all-empty", "empties-mixed", "dna-mixed", "one-per-chunk-packets"):
+                amino = rng.random() < 0.4 and shape != "dna-mixed"
+                raw = rng.random() < 0.5 or shape == "count-0"
+                gen = (lambda n: [rng.randrange(20) for _ in range(n)]) if amino else (lambda n: mixed_dna(n, raw))
+                maxseq = rng.choice([2, 3, 4, 7])
+                maxpacket = rng.choice([4, 6, 9, 20])
+                if shape == "tail-carry":
+                    # the whole index fits one fread (maxseq >= nseq) but the packets need several chunks: after the first chunk the
+                    # index file is exhausted and every later chunk is made of carried-over records only
+                    nseq = rng.randrange(5, 40); maxseq = rng.choice([nseq, nseq + 1, 64, 4096])
+                    seqs = [gen(rng.randrange(0, 6 * maxpacket)) for _ in range(nseq)]
+                elif shape == "tail-carry-long":
+                    # same, with sequences that nearly fill a chunk each, so the last chunks hold one carried record apiece
+                    nseq = rng.randrange(3, 12); maxseq = rng.choice([nseq, 4096])
+                    seqs = [gen(rng.randrange(max(0, 6 * maxpacket - 8), 6 * maxpacket)) for _ in range(nseq)]
+                elif shape.startswith("count-"):
+                    nseq = {"count-0": 0, "count-1": 1, "count-eq": maxseq, "count-eq+1": maxseq + 1, "count-2eq": 2 * maxseq, "count-2eq-1": 2 * maxseq - 1}[shape]
+                    maxpacket = rng.choice([maxpacket, 300])          # with 300 the sequence count alone decides the chunk boundaries
+                    seqs = [gen(rng.randrange(0, min(30, 6 * maxpacket))) for _ in range(nseq)]
+                elif shape == "all-empty":
+                    nseq = rng.randrange(1, 3 * maxseq + 2); seqs = [[] for _ in range(nseq)]
+                elif shape == "empties-mixed":
+                    nseq = rng.randrange(2, 30); seqs = [[] if rng.random() < 0.5 else gen(rng.randrange(1, 6 * maxpacket)) for _ in range(nseq)]
+                elif shape == "dna-mixed":
+                    nseq = rng.randrange(1, 25); maxpacket = rng.choice([6, 9, 20, 50]); seqs = [mixed_dna(rng.randrange(0, 6 * maxpacket), raw) for _ in range(nseq)]
+                else:   # every sequence takes exactly maxpacket packets: one sequence per chunk although maxseq allows more
+                    nseq = rng.randrange(1, 10); per = 6 if amino else 15
+                    seqs = [[rng.randrange(4) for _ in range(per * maxpacket)] if not amino else [rng.randrange(20) for _ in range(6 * maxpacket - rng.randrange(0, 6))] for _ in range(nseq)]
+                    seqs = [x[:6 * maxpacket - 1] for x in seqs]          # the writer's guarantee L < 6 * maxpacket
+                out.append(self.dsq_case("dsq-%s-%d" % (shape, k), "amino" if amino else "dna", seqs, maxseq, maxpacket, rng.randrange(1, 5), rng.randrange(1, 5),
+                                         rng.randrange(1, 1 << 30), rng.choice([0, 30, 70]), rng, raw=raw))
+                k += 1; stats["dsqrt"] += 1; stats["dsqrt_seqs"] += len(seqs)
+        if not quick:
+            # the upper end of the quantifier: thousands of sequences, sequences of 20000 residues, default-sized chunk limits
+            for c, (nseq, maxlen, maxseq, maxpacket) in enumerate([(5000, 40, 64, 300), (3000, 60, 4096, 2000), (40, 20000, 7, 3400), (12, 20000, 4096, 262144 // 8)]):
+                amino = c % 2 == 0
+                seqs = [self.rand_dsq(rng, amino, maxlen) if maxlen < 1000 else
+                        [rng.randrange(20 if amino else 4) if rng.random() < 0.999 else (21 if amino else 15) for _ in range(rng.choice([maxlen, maxlen - 1, rng.randrange(maxlen // 2, maxlen)]))]
+                        for _ in range(nseq)]
+                out.append(self.dsq_case("dsqbig%d" % c, "amino" if amino else "dna", seqs, maxseq, maxpacket, rng.randrange(1, 5), rng.randrange(1, 5),
+                                         rng.randrange(1, 1 << 30), 10, rng, raw=(c >= 2)))
+                stats["dsqrt"] += 1; stats["dsqrt_seqs"] += nseq
         rng.shuffle(out)
         return out
 
